@@ -34,24 +34,28 @@ Theorem C25_mixed_case_refuted :
 Proof. exact mixed_case_refuted'. Qed.
 
 (* second half: whatever a login attempt does to the store (upgrade of a legacy credential to bcrypt),
-   every later verdict for every user and every candidate password is unchanged -- except, when the
-   upgraded password is exactly 72 bytes long, for candidates longer than 72 bytes *)
+   every later verdict for every user and every candidate password of any length is unchanged.
+   (Repaired code: credentials whose password is 72 bytes or longer are not upgraded.) *)
 Definition C25_migration_statement : Prop :=
   forall H pt st u (p : str) v (q : str), hash_laws H ->
     fst (validate H pt (snd (validate H pt st u p)) v q) = fst (validate H pt st v q).
 
-Theorem C25_migration_invariant_partial :
-  forall H pt st u (p : str) v (q : str), hash_laws H ->
-    ((length q <= 72)%nat \/ length p <> 72%nat) ->
-    fst (validate H pt (snd (validate H pt st u p)) v q) = fst (validate H pt st v q).
+Theorem C25_migration_invariant : C25_migration_statement.
 Proof. exact migration_invariant'. Qed.
 
-Theorem C25_migration_refuted :
+(* a successful login with a password of 72 bytes or more leaves the store as it is *)
+Theorem C25_no_upgrade_at_72 :
+  forall H pt st u (p : str), hash_laws H -> (72 <= length p)%nat -> snd (validate H pt st u p) = st.
+Proof. exact no_upgrade_at_72'. Qed.
+
+(* the code before the repair (upgrade whenever HashPassword succeeds, i.e. up to 72 bytes): a 72-byte legacy
+   password; after the upgrade p ++ "x" is accepted, before it was not *)
+Theorem C25_migration_old_refuted :
   forall H, hash_laws H ->
-  exists st u p q, store_wf st /\ fst (validate H true st u p) = true /\
-    fst (validate H true st u q) = false /\
-    fst (validate H true (snd (validate H true st u p)) u q) = true.
-Proof. exact migration_refuted'. Qed.
+  exists st u p q, store_wf st /\ fst (validate_old H true st u p) = true /\
+    fst (validate_old H true st u q) = false /\
+    fst (validate_old H true (snd (validate_old H true st u p)) u q) = true.
+Proof. exact migration_old_refuted'. Qed.
 
 (* credential change (ReadUser / replace Password / WriteUser, as the admin handlers do): the store stays
    well formed, so C25_iff_partial holds in the new state, and concretely the changed user is judged by the
@@ -102,3 +106,16 @@ Example C25_nonvacuous_change :
 Proof.
   split; [apply change_keeps_wf; apply C25_nonvacuous|]. vm_compute. split; reflexivity.
 Qed.
+
+(* 72-byte quoted-plaintext password: accepted, not upgraded, the longer candidate stays rejected; a 71-byte one
+   is upgraded and the longer candidate stays rejected as well; the old code accepted it after the upgrade *)
+Definition ex72 (n : nat) : store := [{| uname := [100]; upass := (123 :: repeat 97 n) ++ [125]; uperms := [ego_logon] |}].
+Example C25_nonvacuous_72 :
+  fst (validate toy true (ex72 72) [100] (repeat 97 72)) = true /\
+  snd (validate toy true (ex72 72) [100] (repeat 97 72)) = ex72 72 /\
+  fst (validate toy true (snd (validate toy true (ex72 72) [100] (repeat 97 72))) [100] (repeat 97 73)) = false /\
+  snd (validate toy true (ex72 71) [100] (repeat 97 71)) <> ex72 71 /\
+  fst (validate toy true (snd (validate toy true (ex72 71) [100] (repeat 97 71))) [100] (repeat 97 72)) = false /\
+  fst (validate toy true (snd (validate toy true (ex72 71) [100] (repeat 97 71))) [100] (repeat 97 71)) = true /\
+  fst (validate_old toy true (snd (validate_old toy true (ex72 72) [100] (repeat 97 72))) [100] (repeat 97 73)) = true.
+Proof. vm_compute. repeat split; congruence. Qed.
